@@ -100,7 +100,7 @@ PROG_KINDS = {
 TEXT_KINDS = {
     "C13": ["al.", "x.AL"],
     "C16": ["bt.", "gf.", "fs.", "dt.others", "x.BT", "x.GF"],
-    "C17": ["dt.nondeterministic", "dt.alone", "dt.exit", "x.DT"],
+    "C17": ["dt.nondeterministic", "dt.alone", "dt.sequence", "dt.exit", "x.DT"],
     "C18": ["es.", "x.ES"],
     "C20": ["sm.", "x.SM"],
 }
